@@ -13,85 +13,3 @@ func VerifFindShortVector(k *scalar.Scalar) (d0hi int64, d0lo uint64, d1hi int64
 	return d0.hi, d0.lo, d1.hi, d1.lo
 }
 
-// VerifInt128Op applies one Int128 primitive: "add", "sub", "neg", "abs", "shl" (by n).
-func VerifInt128Op(op string, xhi int64, xlo uint64, yhi int64, ylo uint64, n uint) (int64, uint64) {
-	x, y := newInt128(xhi, xlo), newInt128(yhi, ylo)
-	var z Int128
-	switch op {
-	case "add":
-		z = x.add(y)
-	case "sub":
-		z = x.sub(y)
-	case "neg":
-		z = x.neg()
-	case "abs":
-		z = x.Abs()
-	case "shl":
-		z = x.shl(n)
-	default:
-		panic("VerifInt128Op: " + op)
-	}
-	return z.hi, z.lo
-}
-
-// VerifInt128IsNegative / VerifInt128IsZero expose the predicates.
-func VerifInt128IsNegative(hi int64, lo uint64) bool { return newInt128(hi, lo).IsNegative() }
-func VerifInt128IsZero(hi int64, lo uint64) bool     { return newInt128(hi, lo).isZero() }
-
-// VerifInt128ToScalar exposes ToScalar (sign honoured: negative values map to L - |x|).
-func VerifInt128ToScalar(hi int64, lo uint64) *scalar.Scalar {
-	var s scalar.Scalar
-	return newInt128(hi, lo).ToScalar(&s)
-}
-
-// VerifInt128FromScalar exposes newInt128FromScalar (the low 128 bits).
-func VerifInt128FromScalar(s *scalar.Scalar) (int64, uint64) {
-	x := newInt128FromScalar(s)
-	return x.hi, x.lo
-}
-
-// VerifEllLowerHalf / VerifEllSquared expose the two constants of the reduction.
-func VerifEllLowerHalf() (int64, uint64) { return constELL_LOWER_HALF.hi, constELL_LOWER_HALF.lo }
-func VerifEllSquared() [8]uint64         { return *ellSquared() }
-
-// 512-bit primitives on raw limbs.
-func VerifInt512Mul(a, b *scalar.Scalar) [8]uint64 { return *(&int512{}).Mul(a, b) }
-func VerifInt512Add(a, b [8]uint64) [8]uint64 {
-	x, y := int512(a), int512(b)
-	return *(&int512{}).Add(&x, &y)
-}
-func VerifInt512AddShifted(a, b [8]uint64, s uint) [8]uint64 {
-	x, y := int512(a), int512(b)
-	return *(&int512{}).AddShifted(&x, &y, s)
-}
-func VerifInt512SubShifted(a, b [8]uint64, s uint) [8]uint64 {
-	x, y := int512(a), int512(b)
-	return *(&int512{}).SubShifted(&x, &y, s)
-}
-func VerifInt512BitLen(a [8]uint64) uint     { x := int512(a); return x.BitLen() }
-func VerifInt512IsNegative(a [8]uint64) bool { x := int512(a); return x.IsNegative() }
-func VerifInt512PositiveLt(a, b [8]uint64) bool {
-	x, y := int512(a), int512(b)
-	return x.PositiveLt(&y)
-}
-func VerifInt512SafeToShrink(a [8]uint64) bool { x := int512(a); return x.SafeToShrink() }
-
-// 384-bit primitives on raw limbs.
-func VerifInt384FromInt512(a [8]uint64) [6]uint64 {
-	x := int512(a)
-	return *(&int384{}).FromInt512(&x)
-}
-func VerifInt384AddShifted(a, b [6]uint64, s uint) [6]uint64 {
-	x, y := int384(a), int384(b)
-	return *(&int384{}).AddShifted(&x, &y, s)
-}
-func VerifInt384SubShifted(a, b [6]uint64, s uint) [6]uint64 {
-	x, y := int384(a), int384(b)
-	return *(&int384{}).SubShifted(&x, &y, s)
-}
-func VerifInt384BitLen(a [6]uint64) uint     { x := int384(a); return x.BitLen() }
-func VerifInt384IsNegative(a [6]uint64) bool { x := int384(a); return x.IsNegative() }
-func VerifInt384PositiveLt(a, b [6]uint64) bool {
-	x, y := int384(a), int384(b)
-	return x.PositiveLt(&y)
-}
